@@ -397,8 +397,8 @@ def bce_with_logits_loss_backward(grad: np.ndarray, y_pred: np.ndarray, y_true: 
 
 
 def cross_entropy_loss_forward(y_pred: np.ndarray, y_true: np.ndarray) -> np.ndarray:
-    softmax = np.log(softmax_forward(y_pred, 1) + epsilon)
-    log_likelihood = nll_loss_forward(softmax, y_true)
+    log_softmax = log_softmax_forward(y_pred, 1)
+    log_likelihood = nll_loss_forward(log_softmax, y_true)
     return log_likelihood
 
 def cross_entropy_loss_backward(grad: np.ndarray, y_pred: np.ndarray, y_true: np.ndarray) -> np.ndarray:
